@@ -26,6 +26,11 @@ def superJ (j : Json) : Except String Json := do
     let b ← matOf (← j.getObjVal? "b")
     pure (matJ (sprepost a b))
   | "dissipator2" => pure (matJ (dissipator2 a))
+  | "dissipator_chi2" => do
+    -- {a, b, z: [re, im]} with z = e^{i chi} a Gaussian unit
+    let b ← matOf (← j.getObjVal? "b")
+    let z ← (← j.getObjVal? "z").getArr?
+    pure (matJ (dissipatorChi2 ⟨← (z[0]!).getInt?, ← (z[1]!).getInt?⟩ a b))
   | _ => throw "bad kind"
 
 def liouvJ (j : Json) : Except String Json := do
